@@ -171,7 +171,12 @@ func xr(r *core.Rand, o Opts) *rtcp.ExtendedReport {
 		PrefillXRHeaders(r, x)
 	}
 	if len(x.Reports) >= 1 && len(x.Reports) < 8 && r.Chance(1, 10) {
-		x.Reports = append(x.Reports, x.Reports[r.Intn(len(x.Reports))]) // one block (one pointer) twice
+		i := r.Intn(len(x.Reports)) // one block (one pointer) twice: at the end, or as its own neighbour
+		if r.Bool() {
+			x.Reports = append(x.Reports, x.Reports[i])
+		} else {
+			x.Reports = append(x.Reports[:i+1], append([]rtcp.ReportBlock{x.Reports[i]}, x.Reports[i+1:]...)...)
+		}
 	}
 	return x
 }
